@@ -47,7 +47,8 @@ def concretise(p, workdir, idx):
     for f in p["flagsCli"]:
         argv += ["--" + REAL[f]]
     if p["gcp"]:
-        env["GIT_CONFIG_PARAMETERS"] = f"'delta.{OPT}={VAL['gcp']}'"
+        # (git appends to the variable: `git -c k=a -c k=b` and nested invocations give the key twice, and the last one counts)
+        env["GIT_CONFIG_PARAMETERS"] = (f"'delta.{OPT}=99' " if idx % 3 == 0 else "") + f"'delta.{OPT}={VAL['gcp']}'"
     if p["envMode"] != "none":
         env["DELTA_FEATURES"] = ("+" if p["envMode"] == "plus" else "") + " ".join(REAL[f] for f in p["envF"])
     return argv + ["--show-config"], env, path
@@ -177,7 +178,9 @@ def run(tier):
                      + (f'[delta "featq"]\n    {flag} = {feat}\n' if feat != "none" else ""))
         env = {}
         if gcp != "none":
-            env["GIT_CONFIG_PARAMETERS"] = f"'delta.{flag}'='{(TRUE_S if gcp == 'true' else FALSE_S)[sp]}'"
+            # (every other time the key is there twice, in the two formats git writes: the last occurrence counts)
+            first = f"'delta.{flag}={(FALSE_S if gcp == 'true' else TRUE_S)[sp]}' " if i % 2 else ""
+            env["GIT_CONFIG_PARAMETERS"] = first + f"'delta.{flag}'='{(TRUE_S if gcp == 'true' else FALSE_S)[sp]}'"
         r = core.run_delta(["--config", path, "--show-config"], b"", env=env, prefix_args=())
         m = re.search(r"^\s*" + re.escape(flag) + r"\s*=\s*(true|false)\s*$", lexer_strip(r.out), re.M)
         return r, (m.group(1) == "true") if m else None
